@@ -96,19 +96,37 @@ def r09_1(ctx: Ctx) -> None:
                detail="" if ok else f"expected ({want[0]}, {want[1]})", form=f"({got[0]}, {got[1]})")
     ctx.ob("R09.1", LOC, func, qual, "both strands covered", seen == {"forward", "reverse"},
            "both strand arms exist for simple locations", form=str(sorted(seen)))
-    # range guard
-    first = body[0]
+    # range guard: the refusal whose test reads both protein coordinates, decided with locals resolved
+    from ..cfg import CFG
+    from ..flow import deciding_test, fact_texts, inline_reaching, path_facts
+    cfg = CFG(func)
     ok = False
     form = ""
-    if isinstance(first, ast.If) and any(isinstance(s, ast.Raise) for s in first.body):
+    site: ast.AST = func
+    for node in [n for n in walk_local(func) if isinstance(n, ast.Raise)]:
+        terms = []
+        for expr, truth in path_facts(cfg, node):
+            names = {n.id for n in ast.walk(expr) if isinstance(n, ast.Name)}
+            if {pstart, pend} <= names:
+                full = inline_reaching(cfg, expr, expr, keep={pstart, pend, ploc})
+                terms.append(full if truth else ast.UnaryOp(op=ast.Not(), operand=full))
+        if not terms:
+            continue
         mapping = {pstart: "s", pend: "e", f"len({ploc}) // 3": "Q"}
         try:
-            expr = rename(first.test, mapping)
+            cond = terms[0] if len(terms) == 1 else ast.BoolOp(op=ast.And(), values=terms)
+            expr = rename(cond, mapping)
             form = txt(expr)
-            ok, cex, _ = decide(expr, parse("not (0 <= s and s < e and e <= Q)"))
+            holds, cex, _ = decide(expr, parse("not (0 <= s and s < e and e <= Q)"))
         except OutsideFragment:
-            ok = False
-    ctx.ob("R09.1", LOC, first, qual, "range guard", ok,
+            continue
+        decided = deciding_test(cfg, node)
+        rets = [r for r in walk_local(func) if isinstance(r, ast.Return)]
+        before = decided is not None and all(cfg.dominates(decided[0], cfg.n(r)) for r in rets)
+        if holds and before:
+            ok, site = True, node
+            break
+    ctx.ob("R09.1", LOC, site, qual, "range guard", ok,
            "protein ranges outside 0 <= start < end <= len(location) // 3 are refused before any arithmetic", form=form)
     # the feature-level wrapper delegates to the conversion with its own location
     wrapper = ctx.fn(FEAT, "Feature.get_sub_location_from_protein_coordinates")
@@ -116,10 +134,14 @@ def r09_1(ctx: Ctx) -> None:
     ok = len(conv) == 1 and [txt(a) for a in conv[0].args] == ["start", "end", "self.location"]
     ctx.ob("R09.1", FEAT, wrapper, "Feature.get_sub_location_from_protein_coordinates", "delegation", ok,
            "sub-locations are computed by the one conversion routine from the feature's own location", form="")
+    wcfg = CFG(wrapper)
     simple_ret = [r for r in walk_local(wrapper) if isinstance(r, ast.Return) and isinstance(r.value, ast.Call)
                   and call_name(r.value) == "FeatureLocation"
-                  and any("isinstance(self.location, CompoundLocation)" in txt(t) for t, _ in guards(r, stop=wrapper))]
-    ok = bool(simple_ret) and [txt(a) for a in simple_ret[0].value.args] == ["dna_start", "dna_end", "self.location.strand"]
+                  and "not isinstance(self.location, CompoundLocation)" in fact_texts(wcfg, r)]
+    pair = [n for n in walk_local(wrapper) if isinstance(n, ast.Assign) and n.value in conv and isinstance(n.targets[0], ast.Tuple)]
+    names = [txt(e) for e in pair[0].targets[0].elts] if pair else []
+    ok = bool(simple_ret) and len(names) == 2 and [txt(a) for a in simple_ret[0].value.args[:2]] == names and \
+        len(simple_ret[0].value.args) == 3 and txt(inline_reaching(wcfg, simple_ret[0], simple_ret[0].value.args[2])) == "self.location.strand"
     ctx.ob("R09.1", FEAT, simple_ret[0] if simple_ret else wrapper, "Feature.get_sub_location_from_protein_coordinates",
            "simple result", ok, "for single-exon genes the result is exactly the converted pair on the gene's strand", form="")
 
@@ -255,8 +277,11 @@ def r09_3(ctx: Ctx) -> None:
     subs: Dict[str, Tuple[Affine, Affine]] = {}
     alias = {n.targets[0].id for n in walk_local(func) if isinstance(n, ast.Assign) and isinstance(n.targets[0], ast.Name)
              and txt(n.value) == "self.get_sub_location_from_protein_coordinates"}
-    env = {"total_length": Affine({"T": 1})}
-    total_ok = [txt(v) for v in bound_from(func, "total_length")] == ["len(self.location) // 3"]
+    from ..cfg import CFG
+    from ..flow import inline_reaching
+    pcfg = CFG(func)
+    env: Dict[str, Affine] = {}
+    total_ok = True
 
     def atoms(node: ast.AST) -> Optional[str]:
         text = txt(node)
@@ -264,13 +289,16 @@ def r09_3(ctx: Ctx) -> None:
             return "LEAD"
         if text == "len(self._tail)":
             return "TAIL"
+        if text == "len(self.location) // 3":
+            return "T"
         return None
     for node in walk_local(func):
         if isinstance(node, ast.Assign) and isinstance(node.value, ast.Call) and \
                 (call_name(node.value) in alias or last_attr(node.value) == "get_sub_location_from_protein_coordinates"):
             name = txt(node.targets[0])
             try:
-                subs[name] = (affine(node.value.args[0], env, atoms), affine(node.value.args[1], env, atoms))
+                subs[name] = (affine(inline_reaching(pcfg, node, node.value.args[0]), env, atoms),
+                              affine(inline_reaching(pcfg, node, node.value.args[1]), env, atoms))
             except OutsideFragment as err:
                 ctx.cannot("R09.3", PREP, node, "Prepeptide.to_biopython", name, str(err))
     want = {
